@@ -48,7 +48,7 @@ WANT = {"C01"}
 def run(ctx: Ctx):
     # a third of the histories pass explicit identifiers from a small pool, so that an identifier whose entity was
     # removed or detached earlier is used again
-    wscheck.run_props(ctx, WANT, weights={"remove_parent": 4, "remove_ws": 4, "reopen": 3}, pool=lambda rng: 4 if rng.random() < 0.34 else 0)
+    wscheck.run_props(ctx, WANT, weights={"remove_parent": 4, "remove_ws": 4, "reopen": 3, "reattach": 3}, pool=lambda rng: 4 if rng.random() < 0.34 else 0)
 
 
 def replay(ctx: Ctx, payload):
